@@ -1,6 +1,7 @@
 //@ unit: schema_helper
 //@ inject-into: serde_avro_fast/src/schema/self_referential.rs
 //@ crate-attr: feature(const_heap)
+//@ requires-unit: lookup_helper
 //@ anchor: serde_avro_fast/src/schema/self_referential.rs :: pub struct Schema \{
 //@ anchor: serde_avro_fast/src/schema/self_referential.rs :: pub\(crate\) fn root<'a>\(&'a self\) -> NodeRef<'a>
 
@@ -71,3 +72,46 @@ pub(crate) const fn enum_node(symbols: &'static [String]) -> SchemaNode<'static>
 }
 pub(crate) static TWO_SYMBOLS: [String; 2] = [const_string(b"a"), const_string(b"b")];
 pub(crate) static ENUM2: SchemaNode<'static> = enum_node(&TWO_SYMBOLS);
+
+// ---- static union nodes (type-directed table given explicitly, see lookup_helper)
+use crate::schema::union_variants_per_type_lookup::{
+	__verif_lookup_helper::{const_lookup, key_index, N_KEYS},
+	UnionVariantLookupKey,
+};
+pub(crate) static N_NULL: SchemaNode<'static> = SchemaNode::Null;
+pub(crate) static N_LONG: SchemaNode<'static> = SchemaNode::Long;
+pub(crate) static N_DOUBLE: SchemaNode<'static> = SchemaNode::Double;
+pub(crate) static N_STRING: SchemaNode<'static> = SchemaNode::String;
+pub(crate) static N_BOOLEAN: SchemaNode<'static> = SchemaNode::Boolean;
+pub(crate) static N_INT: SchemaNode<'static> = SchemaNode::Int;
+
+const fn table_null_long(null_idx: i64, long_idx: i64) -> [Option<(i64, NodeRef<'static>)>; N_KEYS] {
+	// what PerTypeLookup::new registers for Null and Long (priorities resolved by hand; assumed, A2)
+	let mut t: [Option<(i64, NodeRef<'static>)>; N_KEYS] = [None; N_KEYS];
+	t[key_index(UnionVariantLookupKey::Null)] = Some((null_idx, NodeRef::from_static(&N_NULL)));
+	t[key_index(UnionVariantLookupKey::UnitStruct)] = Some((null_idx, NodeRef::from_static(&N_NULL)));
+	t[key_index(UnionVariantLookupKey::UnitVariant)] = Some((null_idx, NodeRef::from_static(&N_NULL)));
+	t[key_index(UnionVariantLookupKey::Integer)] = Some((long_idx, NodeRef::from_static(&N_LONG)));
+	t[key_index(UnionVariantLookupKey::Integer4)] = Some((long_idx, NodeRef::from_static(&N_LONG)));
+	t[key_index(UnionVariantLookupKey::Integer8)] = Some((long_idx, NodeRef::from_static(&N_LONG)));
+	t
+}
+static VARIANTS_NULL_LONG: [NodeRef<'static>; 2] = [NodeRef::from_static(&N_NULL), NodeRef::from_static(&N_LONG)];
+static VARIANTS_LONG_NULL: [NodeRef<'static>; 2] = [NodeRef::from_static(&N_LONG), NodeRef::from_static(&N_NULL)];
+static VARIANTS_NULL_LONG_DOUBLE: [NodeRef<'static>; 3] =
+	[NodeRef::from_static(&N_NULL), NodeRef::from_static(&N_LONG), NodeRef::from_static(&N_DOUBLE)];
+/// ["null", "long"]
+pub(crate) static UNION_NULL_LONG: SchemaNode<'static> = SchemaNode::Union(Union {
+	variants: const_vec(&VARIANTS_NULL_LONG),
+	per_type_lookup: const_lookup(table_null_long(0, 1)),
+});
+/// ["long", "null"]
+pub(crate) static UNION_LONG_NULL: SchemaNode<'static> = SchemaNode::Union(Union {
+	variants: const_vec(&VARIANTS_LONG_NULL),
+	per_type_lookup: const_lookup(table_null_long(1, 0)),
+});
+/// ["null", "long", "double"] (decode-side harnesses only: lookup table left empty)
+pub(crate) static UNION_NULL_LONG_DOUBLE: SchemaNode<'static> = SchemaNode::Union(Union {
+	variants: const_vec(&VARIANTS_NULL_LONG_DOUBLE),
+	per_type_lookup: const_lookup([None; N_KEYS]),
+});
